@@ -55,139 +55,144 @@ def run(eng, R):
     R.ob("H-cov", "pair 2*errordef", (k1).canon() == "X", ("kafe2/core/minimizers/minimizer_base.py", 0), "factor mismatch between covariance and inverse Hessian relations")
 
     # ---- fixed-parameter bookkeeping
-    MB = p.find_class("MinimizerBase")
-    rm, fi = p.method(MB, "_remove_zeroes_for_fixed"), p.method(MB, "_fill_in_zeroes_for_fixed")
+    with R.guard("fixedparameter bookkeeping"):
+        MB = p.find_class("MinimizerBase")
+        rm, fi = p.method(MB, "_remove_zeroes_for_fixed"), p.method(MB, "_fill_in_zeroes_for_fixed")
 
-    # canonical forms; `_fx` (index list of the fixed parameters), `_i`, `_n`, `_m`, `_k` are placeholders for whatever the locals are called
-    FX = "[_i for _i, _n in enumerate(self._par_names) if self.is_fixed(_n)]"
-    srm, sfi = eng.csrc(rm), eng.csrc(fi)
-    a = srm.like("_fx = " + FX) or srm.like(FX)
-    b = sfi.like("for _k in %s:" % FX) or sfi.all_like("_fx = " + FX, "for _k in _fx:")
-    R.ob("H-sub", "fixed index set", bool(a and b), eng.where(fi), "removal and re-insertion must both use the indices of the parameters for which is_fixed(name) holds, in ascending order")
-    R.ob("H-sub", "_remove_zeroes_for_fixed", srm.like("return np.delete(np.delete(matrix, _fx, axis=0), _fx, axis=1)"), eng.where(rm), "rows and columns of the fixed parameters must both be removed")
-    R.ob("H-sub", "_fill_in_zeroes_for_fixed", sfi.all_like("_m = np.insert(np.insert(_m, _k, 0.0, axis=0), _k, 0.0, axis=1)", "return _m") and common.like_any(sfi, ["_m = submatrix"]), eng.where(fi),
-         "zero rows and columns must be inserted at the index of each fixed parameter (ascending order)")
-    hi = MB.find_prop("hessian_inv").fget
-    shi = eng.csrc(hi)
-    SUB = "np.delete(np.delete(%s, _fx, axis=0), _fx, axis=1)"
-    ok = common.like_any(shi, ["_fx = " + FX, "self._hessian_inv = self._fill_in_zeroes_for_fixed(np.linalg.inv(%s))" % (SUB % "self.hessian")],
-                         ["_h = self.hessian", "_fx = " + FX, "self._hessian_inv = self._fill_in_zeroes_for_fixed(np.linalg.inv(%s))" % (SUB % "_h")],
-                         ["self._hessian_inv = self._fill_in_zeroes_for_fixed(np.linalg.inv(self._remove_zeroes_for_fixed(self.hessian)))"])
-    R.ob("H-sub", "hessian_inv:sub-block", ok, eng.where(hi), "the Hessian must be inverted on the free sub-block and zero-filled for fixed parameters")
-    sym = [n for n in ast.walk(eng.cnode(hi)) if isinstance(n, ast.Assign) and any(self_attr(t) == "_hessian_inv" for t in n.targets)]
-    symtxt = [" ".join(ast.unparse(n.value).split()) for n in sym]
-    R.ob("H-sub", "hessian_inv:symmetrise", "0.5 * (self._hessian_inv + self._hessian_inv.T)" in symtxt, eng.where(hi), "the inverse Hessian must be symmetrised as (H + H^T)/2 (found %s)" % symtxt)
-    sm = p.find_class("MinimizerScipyOptimize")
-    mn = p.method(sm, "minimize")
-    src = eng.csrc(mn)
-    R.ob("H-sub", "scipy minimize:fixed re-insertion", src.all_like("def _fn(_args): _dyn[0, 0:-_nfix] = _args return self._func_wrapper_unpack_args(_dyn[_sel, _pos])",
-                                                                "_dyn[0, 0:-_nfix] = self._opt_result.x self._par_val = _dyn[_sel, _pos]"), eng.where(mn),
-         "the scipy adapter must unpack the optimiser's free-parameter vector with the same (fixed flag, position) index arrays it used to pack the objective's arguments")
+        # canonical forms; `_fx` (index list of the fixed parameters), `_i`, `_n`, `_m`, `_k` are placeholders for whatever the locals are called
+        FX = "[_i for _i, _n in enumerate(self._par_names) if self.is_fixed(_n)]"
+        srm, sfi = eng.csrc(rm), eng.csrc(fi)
+        a = srm.like("_fx = " + FX) or srm.like(FX)
+        b = sfi.like("for _k in %s:" % FX) or sfi.all_like("_fx = " + FX, "for _k in _fx:")
+        R.ob("H-sub", "fixed index set", bool(a and b), eng.where(fi), "removal and re-insertion must both use the indices of the parameters for which is_fixed(name) holds, in ascending order")
+        R.ob("H-sub", "_remove_zeroes_for_fixed", srm.like("return np.delete(np.delete(matrix, _fx, axis=0), _fx, axis=1)"), eng.where(rm), "rows and columns of the fixed parameters must both be removed")
+        R.ob("H-sub", "_fill_in_zeroes_for_fixed", sfi.all_like("_m = np.insert(np.insert(_m, _k, 0.0, axis=0), _k, 0.0, axis=1)", "return _m") and common.like_any(sfi, ["_m = submatrix"]), eng.where(fi),
+             "zero rows and columns must be inserted at the index of each fixed parameter (ascending order)")
+        hi = MB.find_prop("hessian_inv").fget
+        shi = eng.csrc(hi)
+        SUB = "np.delete(np.delete(%s, _fx, axis=0), _fx, axis=1)"
+        ok = common.like_any(shi, ["_fx = " + FX, "self._hessian_inv = self._fill_in_zeroes_for_fixed(np.linalg.inv(%s))" % (SUB % "self.hessian")],
+                             ["_h = self.hessian", "_fx = " + FX, "self._hessian_inv = self._fill_in_zeroes_for_fixed(np.linalg.inv(%s))" % (SUB % "_h")],
+                             ["self._hessian_inv = self._fill_in_zeroes_for_fixed(np.linalg.inv(self._remove_zeroes_for_fixed(self.hessian)))"])
+        R.ob("H-sub", "hessian_inv:sub-block", ok, eng.where(hi), "the Hessian must be inverted on the free sub-block and zero-filled for fixed parameters")
+        sym = [n for n in ast.walk(eng.cnode(hi)) if isinstance(n, ast.Assign) and any(self_attr(t) == "_hessian_inv" for t in n.targets)]
+        symtxt = [" ".join(ast.unparse(n.value).split()) for n in sym]
+        R.ob("H-sub", "hessian_inv:symmetrise", "0.5 * (self._hessian_inv + self._hessian_inv.T)" in symtxt, eng.where(hi), "the inverse Hessian must be symmetrised as (H + H^T)/2 (found %s)" % symtxt)
+        sm = p.find_class("MinimizerScipyOptimize")
+        mn = p.method(sm, "minimize")
+        src = eng.csrc(mn)
+        R.ob("H-sub", "scipy minimize:fixed re-insertion", src.all_like("def _fn(_args): _dyn[0, 0:-_nfix] = _args return self._func_wrapper_unpack_args(_dyn[_sel, _pos])",
+                                                                    "_dyn[0, 0:-_nfix] = self._opt_result.x self._par_val = _dyn[_sel, _pos]"), eng.where(mn),
+             "the scipy adapter must unpack the optimiser's free-parameter vector with the same (fixed flag, position) index arrays it used to pack the objective's arguments")
 
     # ---- correlation / errors
-    check(eng, R, "H-cor", "CovMat", "cor_mat", "assign", "self._mat / outer(sqrt(diag(self._mat)), sqrt(diag(self._mat)))", target="self._cor_mat",
-          what="correlation matrix must be covariance / outer(sigma, sigma)")
-    cm = MB.find_prop("cor_mat").fget
-    src = eng.csrc(cm)
-    ok = common.like_any(src, ["_fx = " + FX, "self._par_cor_mat = self._fill_in_zeroes_for_fixed(CovMat(%s).cor_mat)" % (SUB % "self.cov_mat")],
-                         ["_cm = self.cov_mat", "_fx = " + FX, "self._par_cor_mat = self._fill_in_zeroes_for_fixed(CovMat(%s).cor_mat)" % (SUB % "_cm")],
-                         ["_cm = self.cov_mat", "_cm2 = _cm", "_fx = " + FX, "self._par_cor_mat = self._fill_in_zeroes_for_fixed(CovMat(%s).cor_mat)" % (SUB % "_cm2")],
-                         ["self._par_cor_mat = self._fill_in_zeroes_for_fixed(CovMat(self._remove_zeroes_for_fixed(self.cov_mat)).cor_mat)"],
-                         ["_cm = self.cov_mat", "self._par_cor_mat = self._fill_in_zeroes_for_fixed(CovMat(self._remove_zeroes_for_fixed(_cm)).cor_mat)"])
-    R.ob("H-cor", "MinimizerBase.cor_mat", ok, eng.where(cm), "the parameter correlation matrix must be the normalisation of the covariance on the free sub-block")
-    check(eng, R, "H-cor", "MinimizerScipyOptimize", "minimize", "assign", "sqrt(diag(self.cov_mat))", target="self._par_err", what="symmetric parameter errors must be sqrt(diag(covariance))")
+    with R.guard("correlation / errors"):
+        check(eng, R, "H-cor", "CovMat", "cor_mat", "assign", "self._mat / outer(sqrt(diag(self._mat)), sqrt(diag(self._mat)))", target="self._cor_mat",
+              what="correlation matrix must be covariance / outer(sigma, sigma)")
+        cm = MB.find_prop("cor_mat").fget
+        src = eng.csrc(cm)
+        ok = common.like_any(src, ["_fx = " + FX, "self._par_cor_mat = self._fill_in_zeroes_for_fixed(CovMat(%s).cor_mat)" % (SUB % "self.cov_mat")],
+                             ["_cm = self.cov_mat", "_fx = " + FX, "self._par_cor_mat = self._fill_in_zeroes_for_fixed(CovMat(%s).cor_mat)" % (SUB % "_cm")],
+                             ["_cm = self.cov_mat", "_cm2 = _cm", "_fx = " + FX, "self._par_cor_mat = self._fill_in_zeroes_for_fixed(CovMat(%s).cor_mat)" % (SUB % "_cm2")],
+                             ["self._par_cor_mat = self._fill_in_zeroes_for_fixed(CovMat(self._remove_zeroes_for_fixed(self.cov_mat)).cor_mat)"],
+                             ["_cm = self.cov_mat", "self._par_cor_mat = self._fill_in_zeroes_for_fixed(CovMat(self._remove_zeroes_for_fixed(_cm)).cor_mat)"])
+        R.ob("H-cor", "MinimizerBase.cor_mat", ok, eng.where(cm), "the parameter correlation matrix must be the normalisation of the covariance on the free sub-block")
+        check(eng, R, "H-cor", "MinimizerScipyOptimize", "minimize", "assign", "sqrt(diag(self.cov_mat))", target="self._par_err", what="symmetric parameter errors must be sqrt(diag(covariance))")
 
     # ---- profile targets
-    ap = p.method(MB, "_calculate_asymmetric_parameter_errors")
-    apn = eng.cnode(ap)
-    loops = [n for n in ast.walk(apn) if isinstance(n, ast.For) and " ".join(ast.unparse(n.iter).split()) == "enumerate(self.parameter_names)" and isinstance(n.target, ast.Tuple)
-             and all(isinstance(e, ast.Name) for e in n.target.elts)]
-    if len(loops) != 1:
-        raise AnalysisError("_calculate_asymmetric_parameter_errors: the loop over enumerate(self.parameter_names) was not found")
-    iv, nv = loops[0].target.elts[0].id, loops[0].target.elts[1].id
-    from ..termform import path_exprs
-    M, E = "self.parameter_values[%s]" % iv, "self.parameter_errors[%s]" % iv
-    KA = ["self.parameter_values", "self.parameter_errors", "self.function_value", iv, nv, "()self._find_cost_cut"]
-    check(eng, R, "H-prof", "MinimizerBase", "_calculate_asymmetric_parameter_errors", "arg", "self.function_value + 1.0", target="_find_cost_cut:2", known=KA,
-          what="asymmetric errors are where the profile has risen by exactly 1")
+    with R.guard("profile targets"):
+        ap = p.method(MB, "_calculate_asymmetric_parameter_errors")
+        apn = eng.cnode(ap)
+        loops = [n for n in ast.walk(apn) if isinstance(n, ast.For) and " ".join(ast.unparse(n.iter).split()) == "enumerate(self.parameter_names)" and isinstance(n.target, ast.Tuple)
+                 and all(isinstance(e, ast.Name) for e in n.target.elts)]
+        if len(loops) != 1:
+            raise AnalysisError("_calculate_asymmetric_parameter_errors: the loop over enumerate(self.parameter_names) was not found")
+        iv, nv = loops[0].target.elts[0].id, loops[0].target.elts[1].id
+        from ..termform import path_exprs
+        M, E = "self.parameter_values[%s]" % iv, "self.parameter_errors[%s]" % iv
+        KA = ["self.parameter_values", "self.parameter_errors", "self.function_value", iv, nv, "()self._find_cost_cut"]
+        check(eng, R, "H-prof", "MinimizerBase", "_calculate_asymmetric_parameter_errors", "arg", "self.function_value + 1.0", target="_find_cost_cut:2", known=KA,
+              what="asymmetric errors are where the profile has risen by exactly 1")
 
-    def pick_side(k):
-        def pick(st):
-            if isinstance(st, ast.Assign) and len(st.targets) == 1 and isinstance(st.targets[0], ast.Subscript) and isinstance(st.targets[0].slice, ast.Tuple) and len(st.targets[0].slice.elts) == 2 \
-                    and " ".join(ast.unparse(st.targets[0].slice.elts[0]).split()) == iv and " ".join(ast.unparse(st.targets[0].slice.elts[1]).split()) == str(k):
-                return [st.value]
-            return []
-        return pick
+        def pick_side(k):
+            def pick(st):
+                if isinstance(st, ast.Assign) and len(st.targets) == 1 and isinstance(st.targets[0], ast.Subscript) and isinstance(st.targets[0].slice, ast.Tuple) and len(st.targets[0].slice.elts) == 2 \
+                        and " ".join(ast.unparse(st.targets[0].slice.elts[0]).split()) == iv and " ".join(ast.unparse(st.targets[0].slice.elts[1]).split()) == str(k):
+                    return [st.value]
+                return []
+            return pick
 
-    from ..termform import subst
-    good = True
-    found = []
-    for k, sign in ((0, "-"), (1, "+")):
-        spec = "self._find_cost_cut(%s, %s %s %s, self.function_value + 1.0, self.parameter_values) - %s" % (nv, M, sign, E, M)
-        forms = [Normalizer({}).norm(subst(e, env)).canon() for conds, e, env in path_exprs(apn, pick_side(k))]
-        found.append(forms)
-        good = good and len(forms) == 1 and forms[0] == norm_spec(spec).canon()
-    R.ob("H-prof", "asymmetric errors:displacement", good, eng.where(ap), "asymmetric errors must be the displacements of the lower / upper cost cut (started one error below / above) from the optimum (found %s)" % found)
-    # the optimum and the target are read before the first cut moves the parameters
-    g = eng.ccfg(ap)
-    cuts = [n for n in g.stmt_nodes() if eng.node_calls_self_method(n, {"_find_cost_cut"})]
-    reads = [n for n in g.stmt_nodes() if n not in cuts and any(isinstance(x, ast.Attribute) and self_attr(x) in ("parameter_values", "function_value", "parameter_errors")
-                                                                 for part in n.ast_parts() for x in ast.walk(part)) and loops[0] is not n.stmt and common.in_loop(apn, n.stmt)]
-    ok = bool(cuts) and all(g.find_path(c.id, lambda m, r=r: m.id == r.id, exceptional=False, avoid=lambda m: eng.node_calls_self_method(m, {"_load_state"})) is None for c in cuts for r in reads)
-    R.ob("H-prof", "asymmetric errors:optimum read first", ok, eng.where(ap), "the optimum, its error and the target cost must be read before a cost cut moves the parameters (or after the state was restored)")
-    fc = p.method(MB, "_find_cost_cut")
-    nested = [n for n in eng.cnode(fc).body if isinstance(n, ast.FunctionDef)][0]
-    rets = [" ".join(ast.unparse(r.value).split()) for r in ast.walk(nested) if isinstance(r, ast.Return)]
-    R.ob("H-prof", "_find_cost_cut:profile function", rets == ["self.function_value - target_cost"], eng.where(fc), "the root function of the cost cut must be cost - target (found %s)" % rets)
-    body = common.src_of(nested)
-    R.ob("H-prof", "_find_cost_cut:pin and re-minimise", "self.set_several(self.parameter_names, min_parameters)" in body and "self.set(parameter_name, parameter_value)" in body and "self.fix(parameter_name)" in body and "self.minimize()" in body,
-         eng.where(fc), "each profile point must start from the optimum, pin the profiled parameter and re-minimise over the others")
-    check(eng, R, "H-prof", "MinimizerScipyOptimize", "_contour_heuristic_grid", "assign", "min(self.function_value, _grid[_min_coords, _min_coords]) + sigma ** 2", target="_contour_fun",
-          what="an n-sigma contour lies where the cost has risen by n^2", rename=None) if False else None
-    for fn, spec in (("_contour_heuristic_grid", "_min_fun + sigma ** 2"), ("_contour_beacon", "self.function_value + sigma ** 2")):
-        f = p.method(sm, fn)
-        # the level is whatever local is compared with the function values: the one whose defining expression mentions sigma ** 2
-        # (read from the source as written and from the canonical form, where the local may have been written out at its uses)
-        vals = set()
-        for tree in (f.node, eng.cnode(f)):
-            for n in ast.walk(tree):
-                if isinstance(n, ast.BinOp) and isinstance(n.op, ast.Add) and any(isinstance(x, ast.Name) and x.id == "sigma" for x in ast.walk(n.right)) \
-                        and not any(isinstance(x, ast.Name) and x.id == "sigma" for x in ast.walk(n.left)) and " ".join(ast.unparse(n.left).split()) in ("_min_fun", "self.function_value") \
-                        and not any(isinstance(x, ast.BinOp) and isinstance(x.op, ast.Mult) for x in ast.walk(n.right)):  # (scaled levels are search tolerances, not the contour)
-                    vals.add(" ".join(ast.unparse(n).split()))
-        vals = sorted(vals)
-        okk = bool(vals) and all(Normalizer().norm(ast.parse(v, mode="eval").body) == norm_spec(spec) for v in vals)
-        R.ob("H-prof", "scipy %s:level" % fn, okk, eng.where(f), "the contour level must be minimum + sigma^2 (found %s)" % vals)
+        from ..termform import subst
+        good = True
+        found = []
+        for k, sign in ((0, "-"), (1, "+")):
+            spec = "self._find_cost_cut(%s, %s %s %s, self.function_value + 1.0, self.parameter_values) - %s" % (nv, M, sign, E, M)
+            forms = [Normalizer({}).norm(subst(e, env)).canon() for conds, e, env in path_exprs(apn, pick_side(k))]
+            found.append(forms)
+            good = good and len(forms) == 1 and forms[0] == norm_spec(spec).canon()
+        R.ob("H-prof", "asymmetric errors:displacement", good, eng.where(ap), "asymmetric errors must be the displacements of the lower / upper cost cut (started one error below / above) from the optimum (found %s)" % found)
+        # the optimum and the target are read before the first cut moves the parameters
+        g = eng.ccfg(ap)
+        cuts = [n for n in g.stmt_nodes() if eng.node_calls_self_method(n, {"_find_cost_cut"})]
+        reads = [n for n in g.stmt_nodes() if n not in cuts and any(isinstance(x, ast.Attribute) and self_attr(x) in ("parameter_values", "function_value", "parameter_errors")
+                                                                     for part in n.ast_parts() for x in ast.walk(part)) and loops[0] is not n.stmt and common.in_loop(apn, n.stmt)]
+        ok = bool(cuts) and all(g.find_path(c.id, lambda m, r=r: m.id == r.id, exceptional=False, avoid=lambda m: eng.node_calls_self_method(m, {"_load_state"})) is None for c in cuts for r in reads)
+        R.ob("H-prof", "asymmetric errors:optimum read first", ok, eng.where(ap), "the optimum, its error and the target cost must be read before a cost cut moves the parameters (or after the state was restored)")
+        fc = p.method(MB, "_find_cost_cut")
+        nested = [n for n in eng.cnode(fc).body if isinstance(n, ast.FunctionDef)][0]
+        rets = [" ".join(ast.unparse(r.value).split()) for r in ast.walk(nested) if isinstance(r, ast.Return)]
+        R.ob("H-prof", "_find_cost_cut:profile function", rets == ["self.function_value - target_cost"], eng.where(fc), "the root function of the cost cut must be cost - target (found %s)" % rets)
+        body = common.src_of(nested)
+        R.ob("H-prof", "_find_cost_cut:pin and re-minimise", "self.set_several(self.parameter_names, min_parameters)" in body and "self.set(parameter_name, parameter_value)" in body and "self.fix(parameter_name)" in body and "self.minimize()" in body,
+             eng.where(fc), "each profile point must start from the optimum, pin the profiled parameter and re-minimise over the others")
+        check(eng, R, "H-prof", "MinimizerScipyOptimize", "_contour_heuristic_grid", "assign", "min(self.function_value, _grid[_min_coords, _min_coords]) + sigma ** 2", target="_contour_fun",
+              what="an n-sigma contour lies where the cost has risen by n^2", rename=None) if False else None
+        for fn, spec in (("_contour_heuristic_grid", "_min_fun + sigma ** 2"), ("_contour_beacon", "self.function_value + sigma ** 2")):
+            f = p.method(sm, fn)
+            # the level is whatever local is compared with the function values: the one whose defining expression mentions sigma ** 2
+            # (read from the source as written and from the canonical form, where the local may have been written out at its uses)
+            vals = set()
+            for tree in (f.node, eng.cnode(f)):
+                for n in ast.walk(tree):
+                    if isinstance(n, ast.BinOp) and isinstance(n.op, ast.Add) and any(isinstance(x, ast.Name) and x.id == "sigma" for x in ast.walk(n.right)) \
+                            and not any(isinstance(x, ast.Name) and x.id == "sigma" for x in ast.walk(n.left)) and " ".join(ast.unparse(n.left).split()) in ("_min_fun", "self.function_value") \
+                            and not any(isinstance(x, ast.BinOp) and isinstance(x.op, ast.Mult) for x in ast.walk(n.right)):  # (scaled levels are search tolerances, not the contour)
+                        vals.add(" ".join(ast.unparse(n).split()))
+            vals = sorted(vals)
+            okk = bool(vals) and all(Normalizer().norm(ast.parse(v, mode="eval").body) == norm_spec(spec) for v in vals)
+            R.ob("H-prof", "scipy %s:level" % fn, okk, eng.where(f), "the contour level must be minimum + sigma^2 (found %s)" % vals)
 
     # ---- error band
-    XF = p.find_class("XYFit")
-    eb = p.method(XF, "error_band")
-    src = eng.csrc(eb)
-    ebn = eng.cnode(eb)
-    MASK = "[_p not in self._fitter.fixed_parameters for _p in self.parameter_names]"
-    # `_d` derivatives [x][par], `_b` the band, `_k` the index of the evaluation point, `_p` the comprehension variable
-    quad = "_b[_k] = _d[_k, %s].dot(self.parameter_cov_mat[%s][:, %s]).dot(_d[_k, %s])" % (MASK, MASK, MASK, MASK)
-    quad_tmp = ["_mask = " + MASK, "_c = self.parameter_cov_mat[_mask][:, _mask]", "_b[_k] = _d[_k, _mask].dot(_c).dot(_d[_k, _mask])"]
-    ok = common.like_any(src, [quad, "return np.sqrt(_b)"], quad_tmp + ["return np.sqrt(_b)"])
-    R.ob("H-band", "XYFit.error_band:quadratic form", ok, eng.where(eb), "the band must be sqrt(p^T C p) per evaluation point")
-    likes = [c for c in ast.walk(ebn) if isinstance(c, ast.Call) and isinstance(c.func, ast.Attribute) and c.func.attr in ("zeros_like", "empty_like", "ones_like", "full_like")]
-    ok = bool(likes) and all(any(k.arg == "dtype" and ast.unparse(k.value) == "float" for k in c.keywords) for c in likes)
-    R.ob("H-band", "XYFit.error_band:float result", ok, eng.where(eb),
-         "the result array takes the dtype of the caller's x values: for integer x (np.arange) the variances are truncated, typically to a band of exactly zero")
-    R.ob("H-band", "XYFit.error_band:mask", common.like_any(src, [quad], quad_tmp), eng.where(eb), "derivatives and covariance must be cut with the same mask of non-fixed parameters")
-    ok = common.like_any(src, ["_d = self.eval_model_function_derivative_by_parameters(x)", "_d = _d.T", "for _k, _v in enumerate(x):"],
-                         ["_d = self.eval_model_function_derivative_by_parameters(x).T", "for _k, _v in enumerate(x):"])
-    R.ob("H-band", "XYFit.error_band:derivatives", ok, eng.where(eb), "the band must use the model's parameter derivatives at the requested x (transposed to [x][par])")
-    dp = p.method(XF, "eval_model_function_derivative_by_parameters")
-    src = eng.csrc(dp)
-    R.ob("H-band", "XYFit.eval_model_function_derivative_by_parameters", "self._param_model.parameters = self.parameter_values" in src and "par_dx = 0.01 * self.parameter_errors" in src.replace("1e-2", "0.01")
-         and "self._param_model.eval_model_function_derivative_by_parameters(model_parameters=model_parameters, par_dx=par_dx, x=x)" in src, eng.where(dp),
-         "derivatives must be taken at the current parameters with steps tied to the parameter errors")
+    with R.guard("error band"):
+        XF = p.find_class("XYFit")
+        eb = p.method(XF, "error_band")
+        src = eng.csrc(eb)
+        ebn = eng.cnode(eb)
+        MASK = "[_p not in self._fitter.fixed_parameters for _p in self.parameter_names]"
+        # `_d` derivatives [x][par], `_b` the band, `_k` the index of the evaluation point, `_p` the comprehension variable
+        quad = "_b[_k] = _d[_k, %s].dot(self.parameter_cov_mat[%s][:, %s]).dot(_d[_k, %s])" % (MASK, MASK, MASK, MASK)
+        quad_tmp = ["_mask = " + MASK, "_c = self.parameter_cov_mat[_mask][:, _mask]", "_b[_k] = _d[_k, _mask].dot(_c).dot(_d[_k, _mask])"]
+        ok = common.like_any(src, [quad, "return np.sqrt(_b)"], quad_tmp + ["return np.sqrt(_b)"])
+        R.ob("H-band", "XYFit.error_band:quadratic form", ok, eng.where(eb), "the band must be sqrt(p^T C p) per evaluation point")
+        likes = [c for c in ast.walk(ebn) if isinstance(c, ast.Call) and isinstance(c.func, ast.Attribute) and c.func.attr in ("zeros_like", "empty_like", "ones_like", "full_like")]
+        ok = bool(likes) and all(any(k.arg == "dtype" and ast.unparse(k.value) == "float" for k in c.keywords) for c in likes)
+        R.ob("H-band", "XYFit.error_band:float result", ok, eng.where(eb),
+             "the result array takes the dtype of the caller's x values: for integer x (np.arange) the variances are truncated, typically to a band of exactly zero")
+        R.ob("H-band", "XYFit.error_band:mask", common.like_any(src, [quad], quad_tmp), eng.where(eb), "derivatives and covariance must be cut with the same mask of non-fixed parameters")
+        ok = common.like_any(src, ["_d = self.eval_model_function_derivative_by_parameters(x)", "_d = _d.T", "for _k, _v in enumerate(x):"],
+                             ["_d = self.eval_model_function_derivative_by_parameters(x).T", "for _k, _v in enumerate(x):"])
+        R.ob("H-band", "XYFit.error_band:derivatives", ok, eng.where(eb), "the band must use the model's parameter derivatives at the requested x (transposed to [x][par])")
+        dp = p.method(XF, "eval_model_function_derivative_by_parameters")
+        src = eng.csrc(dp)
+        R.ob("H-band", "XYFit.eval_model_function_derivative_by_parameters", "self._param_model.parameters = self.parameter_values" in src and "par_dx = 0.01 * self.parameter_errors" in src.replace("1e-2", "0.01")
+             and "self._param_model.eval_model_function_derivative_by_parameters(model_parameters=model_parameters, par_dx=par_dx, x=x)" in src, eng.where(dp),
+             "derivatives must be taken at the current parameters with steps tied to the parameter errors")
 
     # ---- F1
-    pairs = []
-    for cn in ("ContoursProfiler", "NexusFitter", "MinimizerBase", "MinimizerIMinuit", "MinimizerScipyOptimize", "XYFit", "XYParametricModel", "FitBase", "CovMat"):
-        c = p.find_class(cn)
-        for f in cache.visible_functions(c):
-            pairs.append((c, f))
-    check_arg_slots(eng, R, "F1", pairs)
+    with R.guard("F1"):
+        pairs = []
+        for cn in ("ContoursProfiler", "NexusFitter", "MinimizerBase", "MinimizerIMinuit", "MinimizerScipyOptimize", "XYFit", "XYParametricModel", "FitBase", "CovMat"):
+            c = p.find_class(cn)
+            for f in cache.visible_functions(c):
+                pairs.append((c, f))
+        check_arg_slots(eng, R, "F1", pairs)
